@@ -2,6 +2,7 @@ package c01
 
 import (
 	"bytes"
+	"strings"
 	"testing"
 
 	"github.com/tdewolff/parse/v2"
@@ -53,5 +54,22 @@ func TestRegress_BindingDepth(t *testing.T) {
 	src := "let " + string(bytes.Repeat([]byte("["), 5000)) + "a" + string(bytes.Repeat([]byte("]"), 5000)) + "=b"
 	if _, err := js.Parse(parse.NewInputString(src), js.Options{}); err == nil {
 		t.Fatalf("5000 nested binding patterns are accepted: the nesting limit does not apply to patterns")
+	}
+}
+
+// 15ec541: the uint16 use counter wrapped around in front of an identifier arrow function
+func TestRegress_UsesWrapArrow(t *testing.T) {
+	for _, n := range []int{65534, 65535} {
+		src := "var a;" + strings.Repeat("a;", n) + "a=>1"
+		func() {
+			defer func() {
+				if r := recover(); r != nil {
+					t.Errorf("js.Parse(var a; + a;*%d + a=>1) panics: %v", n, r)
+				}
+			}()
+			if ast, err := js.Parse(parse.NewInputString(src), js.Options{}); err != nil || ast == nil {
+				t.Errorf("js.Parse(var a; + a;*%d + a=>1): %v", n, err)
+			}
+		}()
 	}
 }
